@@ -40,7 +40,7 @@ DYNAMIC = {"exec", "eval", "__import__", "compile"}
 
 # stand-ins that replace user objects when the arguments are synchronous
 STANDINS = [
-    "_core._aiter_sync", "_core.await_value", "_core.force_async.async_wrapped",
+    "_core._aiter_sync", "_core.await_value", "_core.force_async",
     "_core.ScopedIter.__aenter__", "itertools.NoLock.__aenter__", "itertools.NoLock.__aexit__",
     "contextlib.NullContext.__aenter__", "contextlib.NullContext.__aexit__",
     "itertools.identity", "itertools.add", "heapq._identity",
@@ -169,12 +169,24 @@ def r17_3(ctx) -> None:
 
 def r17_4(ctx) -> None:
     for short in STANDINS:
-        u = ctx.unit(short)
+        top = ctx.unit(short)
         ctx.count("standins")
-        cfg = cfg_of(u)
-        sites = [n for n in cfg.nodes if n.kind in ("await", "pull", "aiter", "enter", "exit_cm")]
+        family = [top] + [x for x in top.module.units.values() if _inside(x, top)]
+        sites = []
+        for u in family:
+            cfg = cfg_of(u)
+            sites += [(u, n) for n in cfg.nodes if n.kind in ("await", "pull", "aiter", "enter", "exit_cm")]
         if sites:
-            for n in sites:
+            for u, n in sites:
                 ctx.fail("R17.4", u, n, "synchronous stand-in contains a suspension-capable site", node=n)
         else:
-            ctx.ok("R17.4", u, "no await / async for / async with")
+            ctx.ok("R17.4", top, "no await / async for / async with")
+
+
+def _inside(x, top) -> bool:
+    p = x.parent
+    while p is not None:
+        if p is top:
+            return True
+        p = p.parent
+    return False
